@@ -279,6 +279,16 @@ def make_spec(g, allow=()):
     k = r.random()
     crlf = r.choice(suites.CRLF_MODES) if k < 0.15 and not ends else None
     gaps = 0.15 <= k < 0.27 and not ends
+    mode_ = r.choice([(False, ''), (False, 'clean'), (False, 'true'), (True, 'clean'), (False, 'other')])
+    holes = []
+    if mode_[0] and r.random() < 0.6 and not ends and not skipped:
+        for n, calls in tests:
+            cnt = {}
+            for c, _ in calls:
+                cnt[c] = cnt.get(c, 0) + 1
+            for c, m in cnt.items():
+                if m >= 2 and r.random() < 0.5:
+                    holes.append((n, c, r.randint(1, m - 1)))
     stale_files = r.sample(['old_test.snap', 'x.snapshot', 'gone_1.snap', 'a.snap.json'], r.choice([0, 0, 1, 2]))
     ascii_skipped = [n for n in skipped if all(32 < b < 127 and b != 37 for b in n)]
     if ascii_skipped and r.random() < 0.6:
@@ -289,7 +299,7 @@ def make_spec(g, allow=()):
                 count=r.choice([1, 1, 2, 3]), shuffle=r.randrange(1 << 30),
                 stale_files=stale_files,
                 decoys=r.random() < 0.6,
-                mode=r.choice([(False, ''), (False, 'clean'), (False, 'true'), (True, 'clean'), (False, 'other')]),
+                mode=mode_, holes=holes,
                 sort=r.choice(['-', '1', '1', '1'] if ('ends' in allow or 'big' in allow) else ['-', '0', '1', '1']), flags=set())
 
 
@@ -324,6 +334,10 @@ def layout(spec):
         k = {}
         for cfgno, v in calls:
             k[cfgno] = k.get(cfgno, 0) + 1
+            if (n, cfgno, k[cfgno]) in spec.get('holes', ()):
+                # this slot is missing from the prepared file (lost in a merge) in a run that may not create it: the
+                # call fails with `snapshot not found` - the test's LATER slots are addressed all the same
+                continue
             per[cfgno].append((n + b' - ' + str(k[cfgno]).encode(), esc(v), True))
     tails = {}
     for cfgno, sid, body in spec['stale']:
@@ -436,7 +450,13 @@ def render(tag, spec, oracles):
                 w.add('skip %d %s' % (texec, ['skip', 'skipf', 'skipnow'][(texec + spec['shuffle']) % 3]))
                 continue
             bad = set(tuple(x) for x in spec.get('badcall', ()))
+            holes_ = set(tuple(x) for x in spec.get('holes', ()))
+            kk = {}
             for j, (cfgno, v) in enumerate(calls):
+                kk[cfgno] = kk.get(cfgno, 0) + 1
+                if (n, cfgno, kk[cfgno]) in holes_ and (n, j) not in bad:
+                    w.add('snap %d %d %s' % (cfgno, texec, hx(v)), ('missing-slot-fails-without-writing', suites.exp_one_error_no_write))
+                    continue
                 if (n, j) in bad:
                     op = 'json %d %d s %s' % (cfgno, texec, hx(b'{"not json":')) if (j + texec) % 2 else \
                          'json %d %d s %s %s' % (cfgno, texec, hx(b'{"a":1}'), docs.any_matcher(['zz_missing_zz']))
